@@ -242,16 +242,11 @@ class TranslatorSMT2(Translator):
         elif expr.op == "cnttrailzeros":
             src = res
             size = expr.size
-            size_smt2 = bit_vec_val(size, size)
             one_smt2 = bit_vec_val(1, size)
             zero_smt2 = bit_vec_val(0, size)
-            # src & (1 << (size - 1))
-            op = bvand(src, bvshl(one_smt2, bvsub(size_smt2, one_smt2)))
-            # op != 0
-            cond = smt2_distinct(op, zero_smt2)
-            # ite(cond, size - 1, src)
-            res = smt2_ite(cond, bvsub(size_smt2, one_smt2), src)
-            for i in range(size - 2, -1, -1):
+            # no bit set: size
+            res = bit_vec_val(size, size)
+            for i in range(size - 1, -1, -1):
                 # smt2 expression of i
                 i_smt2 = bit_vec_val(i, size)
                 # src & (1 << i)
@@ -265,18 +260,15 @@ class TranslatorSMT2(Translator):
             size = expr.size
             one_smt2 = bit_vec_val(1, size)
             zero_smt2 = bit_vec_val(0, size)
-            # (src & 1) != 0
-            cond = smt2_distinct(bvand(src, one_smt2), zero_smt2)
-            # ite(cond, 0, src)
-            res= smt2_ite(cond, zero_smt2, src)
-            for i in range(size - 1, 0, -1):
-                index = - i % size
+            # no bit set: size
+            res = bit_vec_val(size, size)
+            for index in range(size):
                 index_smt2 = bit_vec_val(index, size)
                 # src & (1 << index)
                 op = bvand(src, bvshl(one_smt2, index_smt2))
                 # op != 0
                 cond = smt2_distinct(op, zero_smt2)
-                # ite(cond, index, res)
+                # ite(cond, size - (index + 1), res)
                 value_smt2 = bit_vec_val(size - (index + 1), size)
                 res = smt2_ite(cond, value_smt2, res)
         else:
